@@ -5,7 +5,7 @@ use serde_json::json;
 
 use crate::cases::CaseSink;
 use crate::coqfmt::ToCoq;
-use crate::props::link::{drive_end, lcase_term, link_script, Clock, LMode, Strat};
+use crate::props::link::{drive_end, drive_route, lcase_term, link_script, rcase_term, Clock, LMode, Strat, ROUTE_PREDS};
 use crate::rng::Rng;
 use crate::startdrv::{drive_binary_chain, Del};
 use crate::Opts;
@@ -73,6 +73,27 @@ pub fn generate(opts: &Opts, sink: &mut CaseSink) {
         sink.push(format!("(CFan {})", lcase_term(strat, fixed, &blocks, &script, &recv, &clock)),
                   json!({"kind": if broadcast {"broadcast"} else {"split"}, "downstream_replicas": blocks, "input": format!("{:?}", script), "received": format!("{:?}", recv)}), nd >= 3);
     }
+    generate_routes(opts, sink, &mut rng);
 }
 
-pub const RULE: &str = "zip and merge behind the real two-input Start: 1..3 replicas per side, 1..3 rounds, unequal lengths, empty sides, every interleaving of the two sides (one side running ahead), timestamped and plain; broadcast: the real End with the All strategy towards 1..5 replicas; split: the real End towards 2..4 downstream blocks (branches). Non-trivial: >=2 pairs/elements (>=3 data elements for fan-out); distinct = distinct case terms";
+/// route: the real `RoutingEnd` towards 1..4 routes (first matching predicate wins, elements
+/// matching none are dropped), every batch mode
+pub fn generate_routes(opts: &Opts, sink: &mut CaseSink, rng: &mut Rng) {
+    let n = (if opts.thorough { 3000 } else { 300 }) / opts.scale;
+    for _ in 0..n {
+        let k = rng.range(1, 4) as usize;
+        let preds: Vec<usize> = (0..k).map(|_| rng.below(ROUTE_PREDS.len() as u64) as usize).collect();
+        let lmode = LMode::random(rng);
+        let script = link_script(rng);
+        let clock = Clock::random(rng, script.len());
+        let recv = drive_route(&preds, lmode.batch_mode(), script.clone(), &clock).unwrap_or_else(|m| { eprintln!("C09 route: {m}"); vec![vec![]; k] });
+        sink.count("route");
+        sink.count(&format!("routes_{}", k));
+        let nd = script.iter().filter(|e| matches!(e, E::Item(_) | E::Timestamped(_, _))).count();
+        sink.push(format!("(CRoute {})", rcase_term(&preds, lmode, &script, &recv, &clock)),
+                  json!({"kind": "route", "predicates_mod_rem": preds.iter().map(|p| (ROUTE_PREDS[*p].0, ROUTE_PREDS[*p].1)).collect::<Vec<_>>(), "batch": format!("{:?}", lmode),
+                         "clock_ms": format!("{:?}", clock), "input": format!("{:?}", script), "received": format!("{:?}", recv)}), nd >= 3 && k >= 2);
+    }
+}
+
+pub const RULE: &str = "zip and merge behind the real two-input Start: 1..3 replicas per side, 1..3 rounds, unequal lengths, empty sides, every interleaving of the two sides (one side running ahead), timestamped and plain; broadcast: the real End with the All strategy towards 1..5 replicas; split: the real End towards 2..4 downstream blocks (branches); route: the real RoutingEnd towards 1..4 routes with predicates v mod m = r (overlapping, always-true and never-true ones included), every batch mode incl. adaptive under a mock clock, exact batch sequences. Non-trivial: >=2 pairs/elements (>=3 data elements for fan-out); distinct = distinct case terms";
